@@ -637,7 +637,9 @@ class GibbsTempo(BaseAPIClass):
                 self._dynamics.add(self._time(ii), state)
             #  dynamics now has three entries including initial state
 
-        num_step = self._parameters.n_steps - 2
+        # number of steps that remain (none if already computed)
+        num_step = max(
+            0, self._parameters.n_steps - 1 - self._backend_instance.step)
 
         progress = get_progress(progress_type)
         title = "--> GibbsTEMPO computation:"
